@@ -213,7 +213,8 @@ def run_mc(tag, threads, seeds, shapes, maxcalls, clr=True, tl=True, gk=True, ex
     with open(cfgp, "w") as f:
         f.write(MC % par)
     try:
-        r = vlib.tlc(PID, "Random", os.path.basename(cfgp), timeout=timeout, tag="mc_" + tag, workers=workers or vlib.NCPU)
+        r = vlib.tlc(PID, "Random", os.path.basename(cfgp), timeout=timeout, tag="mc_" + tag, workers=workers or vlib.NCPU,
+                     extra=("-noGenerateSpecTE",))     # no *_TTrace_* files in spec/ for the negative controls
     finally:
         os.remove(cfgp)
     if r.error:
